@@ -7,6 +7,9 @@
      L <clean 0|1>;<raw tokens>;<layout tokens>      tokens ::= (kind start end)* as decimals
        reply: `ok` | `fail <erase|balance|position|prefix>`
 
+     M (<tk> <code> <line> <col> <lo> <hi>)*       the raw token stream for the layout MODEL (Layout.v)
+       reply: `ok|err|panic|hang|fuel (<code> <lo> <hi>)*`   the model's output stream
+
    The driver only converts text to the extracted data types and back. *)
 open Model
 
@@ -135,13 +138,43 @@ let do_layout rest =
       if layout_ok clean (parse_toks a) [] then "ok" else "fail empty"
   | _ -> "bad-input"
 
+let tk_of_int = function
+  | 0 -> TEOF | 1 -> TShebang | 2 -> TComma | 3 -> TIn | 4 -> TCloseBlock | 5 -> TOpenBlock | 6 -> TSemi
+  | 7 -> TElse | 8 -> TRBrace | 9 -> TRBracket | 10 -> TRParen | 11 -> TPipe | 12 -> TAttributeOpen
+  | 13 -> TDocComment | 14 -> TRec | 15 -> TType | 16 -> TLet | 17 -> TDo | 18 -> TSeq | 19 -> TIf
+  | 20 -> TMatch | 21 -> TLambda | 22 -> TLBrace | 23 -> TLBracket | 24 -> TLParen | 25 -> TEquals
+  | 26 -> TRArrow | 27 -> TThen | 28 -> TWith | _ -> TOther
+
+let do_model rest =
+  let a = Array.of_list (List.filter (fun x -> x <> "") (split ' ' rest)) in
+  let n = Array.length a / 6 in
+  let rec go i acc =
+    if i < 0 then acc
+    else
+      let f j = n_of_decimal a.(6 * i + j) in
+      go (i - 1) ({ k = tk_of_int (int_of_string a.(6 * i)); code = f 1; line = f 2; col = f 3; mlo = f 4; mhi = f 5 } :: acc)
+  in
+  let raw = go (n - 1) [] in
+  let show st out =
+    let b = Buffer.create 256 in
+    Buffer.add_string b st;
+    List.iter (fun t -> Buffer.add_string b (Printf.sprintf " %d %d %d" (int_of_n t.code) (int_of_n t.mlo) (int_of_n t.mhi))) out;
+    Buffer.contents b
+  in
+  match layout raw with
+  | ROk out -> show "ok" out
+  | RErr out -> show "err" out
+  | RPanic out -> show "panic" out
+  | RHang out -> show "hang" out
+  | RFuel out -> show "fuel" out
+
 let () =
   try
     while true do
       let line = input_line stdin in
       if String.length line >= 2 then begin
         let rest = String.sub line 2 (String.length line - 2) in
-        let r = try (match line.[0] with 'S' -> do_span rest | 'L' -> do_layout rest | _ -> "bad-input")
+        let r = try (match line.[0] with 'S' -> do_span rest | 'L' -> do_layout rest | 'M' -> do_model rest | _ -> "bad-input")
                 with e -> "driver-error " ^ Printexc.to_string e in
         print_endline r
       end
